@@ -68,4 +68,8 @@ theorem secretTensorIdx_inj' (r i j i' j' : Nat) (h : i ≤ j) (hj : j < r) (h' 
   subst hi
   exact ⟨rfl, by omega⟩
 
+theorem ring_regroup {R : Type*} [CommRing R] (m s u d p h : R) : m * s * u + d - p - h = m * (s * u) + (d - p - h) := by ring
+
+theorem expand_regroup {R : Type*} [CommRing R] (sc u x body : R) : sc * u + x + sc * body = sc * (body + u) + x := by ring
+
 end Core
